@@ -10,6 +10,8 @@ pub fn run(sc: &Value) -> Value {
     match sc["pre"].as_str().unwrap_or("absent") {
         "empty" => std::fs::write(dir.join("f"), b"").unwrap(),
         "nonempty" => std::fs::write(dir.join("f"), b"old").unwrap(),
+        "identical" => std::fs::write(dir.join("f"), b"new").unwrap(),
+        "prefix" => std::fs::write(dir.join("f"), b"ne").unwrap(),
         _ => {}
     }
     let mode = if sc["create_new"].as_bool().unwrap_or(true) { WriteMode::CreateNew } else { WriteMode::Overwrite };
